@@ -16,6 +16,7 @@ import DateutilVerif.Proofs.ParserGenNaive
 import DateutilVerif.Proofs.ParserGenLoop
 import DateutilVerif.Proofs.ParserGenParse
 import DateutilVerif.Proofs.ParserGenTail
+import DateutilVerif.Proofs.ParserGenInit
 
 namespace ParserGen
 open PM Py
@@ -257,5 +258,53 @@ example : PM.findHmsIdx (Info.default false false 2026 2000) 2 [tk "h", tk "04"]
 example : PM.findHmsIdx (Info.default false false 2026 2000) 1 [tk "h", tk "04"] true = some (0, 0) := by decide
 example : Gen.P.assignTzname (Info.default false false 2026 2000) { n0 := some (tk "EDT"), n1 := some (tk "EST") }
     (some (tk "EST")) = .ok { n0 := some (tk "EDT"), n1 := some (tk "EST"), fold := 1 } := by decide
+
+/-! ### `parserinfo.__init__`: where `_century ≥ 100` comes from -/
+
+/-- `parserinfo.__init__(dayfirst, yearfirst)` as written now, for ANY class tables (a subclass's word lists) and current year
+    `now_year = time.localtime().tm_year`: `_year = now_year`, `_century = now_year // 100 * 100`, the flags, the converted
+    tables (`_convert` is the named primitive `PM.convertGroups`) -/
+theorem gen_eq_model_info_init (t : PPy.InfoTables) (y : Int) (df yf : Bool) :
+    ∃ I, Gen.P.info_init t y df yf = .ok I ∧ I.year = y ∧ I.century = y / 100 * 100 ∧ I.dayfirst = df ∧ I.yearfirst = yf ∧
+      I.weekdays = PM.convertGroups t.WEEKDAYS ∧ I.months = PM.convertGroups t.MONTHS ∧ I.hms = PM.convertGroups t.HMS ∧
+      I.ampm = PM.convertGroups t.AMPM ∧ I.tzoffsets = t.TZOFFSET := PGen.info_init_ok t y df yf
+
+/-- for the stock class it is the model's `Info.default` -/
+theorem gen_eq_model_info_init_stock (y : Int) (df yf : Bool) :
+    Gen.P.info_init PPy.stockTables y df yf = .ok (Info.default df yf y (y / 100 * 100)) := PGen.info_init_stock y df yf
+
+/-- the hypothesis of the `…_partial` obligations, discharged: an instance built by `__init__` in any year from 100 on has
+    `_century ≥ 100` (what remains assumed is that the clock says a year ≥ 100 and that nobody overwrites `_century`) -/
+theorem century_ge_100_of_init (t : PPy.InfoTables) (y : Int) (df yf : Bool) (I : Info)
+    (h : Gen.P.info_init t y df yf = .ok I) (hy : 100 ≤ y) : 100 ≤ I.century := PGen.info_init_century t y df yf I h hy
+
+/-- `parse()` (from the `_parse` call on) for an instance built by `__init__`: no hypothesis on `_century` left -/
+theorem gen_eq_model_parse_tail_of_init (cls : Char → CClass) (t : PPy.InfoTables) (y : Int) (df0 yf0 : Bool) (info : Info)
+    (hi : Gen.P.info_init t y df0 yf0 = .ok info) (hy : 100 ≤ y) (fuel : Nat) (tznames : List Token)
+    (timestr : List Char) (dflt : DT) (ignoretz : Bool) (tzi : TzInfos) (dayfirst yearfirst : Option Bool)
+    (fuzzy fuzzyWithTokens : Bool) (hf : (PM.lex cls timestr).length ≤ fuel) :
+    Gen.P.parseTail fuel cls tznames info timestr dflt ignoretz tzi dayfirst yearfirst fuzzy fuzzyWithTokens =
+      PM.parseA cls info { dayfirst := dayfirst, yearfirst := yearfirst, fuzzy := fuzzy, fuzzyWithTokens := fuzzyWithTokens,
+                           ignoretz := ignoretz } tznames tzi dflt timestr :=
+  gen_eq_model_parse_tail_partial cls info fuel tznames timestr dflt ignoretz tzi dayfirst yearfirst fuzzy fuzzyWithTokens
+    (century_ge_100_of_init t y df0 yf0 info hi hy) hf
+
+/-- likewise `validate`, the loop body, the loop and `_parse` -/
+theorem gen_eq_model_info_validate_of_init (t : PPy.InfoTables) (y : Int) (df0 yf0 : Bool) (info : Info)
+    (hi : Gen.P.info_init t y df0 yf0 = .ok info) (hy : 100 ≤ y) (res : Res) :
+    Gen.P.info_validate info res = PM.validate info res :=
+  gen_eq_model_info_validate_partial info res (century_ge_100_of_init t y df0 yf0 info hi hy)
+
+theorem gen_eq_model_parse_of_init (cls : Char → CClass) (t : PPy.InfoTables) (y : Int) (df0 yf0 : Bool) (info : Info)
+    (hi : Gen.P.info_init t y df0 yf0 = .ok info) (hy : 100 ≤ y) (fuel : Nat) (timestr : List Char)
+    (dayfirst yearfirst : Option Bool) (fuzzy fuzzyWithTokens : Bool) (hf : (PM.lex cls timestr).length ≤ fuel) :
+    Gen.P.parse fuel cls info timestr dayfirst yearfirst fuzzy fuzzyWithTokens =
+      PM.parseTokens cls info { dayfirst := dayfirst, yearfirst := yearfirst, fuzzy := fuzzy,
+                                fuzzyWithTokens := fuzzyWithTokens } (PM.lex cls timestr) :=
+  gen_eq_model_parse_partial cls info fuel timestr dayfirst yearfirst fuzzy fuzzyWithTokens
+    (century_ge_100_of_init t y df0 yf0 info hi hy) hf
+
+example : ∃ I, Gen.P.info_init PPy.stockTables 2026 false false = .ok I ∧ (100 : Int) ≤ I.century :=
+  ⟨_, gen_eq_model_info_init_stock 2026 false false, by decide⟩
 
 end ParserGen
